@@ -30,7 +30,7 @@ RULE = ('bool: 12 documented words x EVERY letter-case spelling (82) x 11 paddin
         'alphabets, non-str types; is_uuid_like: random 128-bit values x 7 decorations x 3 cases, hex length '
         '30..34, one non-hex character per position class; generate_uuid draws. distinct by (function, input, '
         'settings); non-trivial = everything except the plain lower-case unpadded word / in-range int cases')
-REQUIRED_CLAUSES = ['under-warnings-as-errors', 'concurrent-calls-answer-as-alone', 'under-lazy-translation', 'documented-keyword-call', 'bool-true-word', 'bool-false-word', 'bool-default', 'bool-strict-raises',
+REQUIRED_CLAUSES = ['equal-valued-arguments-in-any-order', 'str-subclass-answered-as-its-characters', 'valid-calls-after-rejected-calls-answer-as-before', 'under-unlimited-int-digits', 'under-warnings-as-errors', 'concurrent-calls-answer-as-alone', 'under-lazy-translation', 'documented-keyword-call', 'bool-true-word', 'bool-false-word', 'bool-default', 'bool-strict-raises',
                     'bool-passthrough', 'boolstr-unpadded', 'boolstr-agrees-with-strict',
                     'int-from-bool', 'intlike-accept', 'intlike-reject', 'vint-returns',
                     'vint-raises', 'vint-noncanonical', 'csl-type', 'csl-raises', 'csl-ok',
